@@ -709,6 +709,135 @@ theorem step_inv_cas {s s' : St} (hi : Inv s) (t : Nat) (ok : Bool)
       exact inv_upd hi t _ s.nodes s.used (by same_heap hi) (by same_heap hi) (by same_heap hi) (by same_heap hi)
         (loc_kont hl.1) (by simp [heldTag_kont]) hk.1 hk.2
 
+/-- one accepted step, seen through the abstraction `contents`: nothing happens, or a value is
+    inserted at end `d`, or the value at end `d` is removed and handed to the popping thread -/
+def Lin (s s' : St) : Prop :=
+  (contents s' = contents s ∧ s'.pushed = s.pushed ∧ s'.popped = s.popped) ∨
+  (∃ (d : Bool) (v : Nat), contents s' = (if d then contents s ++ [v] else v :: contents s) ∧
+      s'.pushed = v :: s.pushed ∧ s'.popped = s.popped) ∨
+  (∃ (d : Bool) (v : Nat), contents s = (if d then contents s' ++ [v] else v :: contents s') ∧
+      s'.popped = v :: s.popped ∧ s'.pushed = s.pushed ∧ ∃ t nd, s'.pc t = .popFree nd v)
+
+theorem lin_same {s s' : St} (h1 : s'.chain = s.chain) (h2 : ∀ x, (s'.nodes x).data = (s.nodes x).data)
+    (h3 : s'.pushed = s.pushed) (h4 : s'.popped = s.popped) : Lin s s' := by
+  refine Or.inl ⟨?_, h3, h4⟩
+  simp only [contents, h1]
+  exact List.map_congr_left (fun x _ => h2 x)
+
+theorem step_lin {s s' : St} {e : Ev} (hi : Inv s) (h : step s e = some s') : Lin s s' := by
+  cases e with
+  | inv t p d v =>
+    simp only [step] at h; split at h <;> first | (simp at h; done) | skip
+    simp only [Option.some.injEq] at h; subst h; exact lin_same rfl (fun _ => rfl) rfl rfl
+  | done t =>
+    simp only [step] at h; (repeat' split at h) <;> first | (simp at h; done) | skip
+    simp only [Option.some.injEq] at h; subst h; exact lin_same rfl (fun _ => rfl) rfl rfl
+  | ret t ok v =>
+    simp only [step] at h; (repeat' split at h) <;> first | (simp at h; done) | skip
+    simp only [Option.some.injEq] at h; subst h; exact lin_same rfl (fun _ => rfl) rfl rfl
+  | free t n =>
+    simp only [step] at h; (repeat' split at h) <;> first | (simp at h; done) | skip
+    simp only [Option.some.injEq] at h; subst h; exact lin_same rfl (fun _ => rfl) rfl rfl
+  | ld t a =>
+    simp only [step] at h; (repeat' split at h) <;> first | (simp at h; done) | skip
+    all_goals (simp only [Option.some.injEq] at h; subst h; exact lin_same rfl (fun _ => rfl) rfl rfl)
+  | chk t b =>
+    simp only [step] at h; (repeat' split at h) <;> first | (simp at h; done) | skip
+    all_goals (simp only [Option.some.injEq] at h; subst h; exact lin_same rfl (fun _ => rfl) rfl rfl)
+  | rd t lk =>
+    simp only [step] at h; (repeat' split at h) <;> first | (simp at h; done) | skip
+    all_goals (simp only [Option.some.injEq] at h; subst h; exact lin_same rfl (fun _ => rfl) rfl rfl)
+  | link t n g =>
+    simp only [step] at h; (repeat' split at h) <;> first | (simp at h; done) | skip
+    simp only [Option.some.injEq] at h; subst h
+    refine lin_same rfl (fun x => ?_) rfl rfl
+    simp only [upd]; split
+    · rename_i hx; subst hx; simp
+    · rfl
+  | lcas t ok =>
+    simp only [step] at h; (repeat' split at h) <;> first | (simp at h; done) | skip
+    · simp only [Option.some.injEq] at h; subst h
+      refine lin_same rfl (fun x => ?_) rfl rfl
+      simp only [upd]; split
+      · rename_i hx; subst hx; simp
+      · rfl
+    · simp only [Option.some.injEq] at h; subst h; exact lin_same rfl (fun _ => rfl) rfl rfl
+  | alloc t n =>
+    simp only [step] at h
+    split at h
+    case isFalse => simp at h
+    rename_i hg
+    split at h
+    case h_2 => simp at h
+    simp only [Option.some.injEq] at h; subst h
+    refine Or.inl ⟨?_, rfl, rfl⟩
+    simp only [contents]
+    refine List.map_congr_left (fun x hx => ?_)
+    have : x ≠ n := by
+      intro he; subst he; have := (hi.glob.mem x hx).2; rw [hg.2.2] at this; simp at this
+    simp [upd, this]
+  | cas t ok =>
+    simp only [step] at h
+    split at h
+    case isFalse => simp at h
+    have hl := hi.loc t
+    split at h
+    case h_6 => simp at h
+    case h_1 d n a hpc =>
+      split at h
+      case isFalse => simp at h
+      split at h
+      · simp only [Option.some.injEq] at h; subst h
+        refine Or.inr (Or.inl ⟨d, (s.nodes n).data, ?_, rfl, rfl⟩)
+        simp only [contents, map_chainPush]
+      · simp only [Option.some.injEq] at h; subst h; exact lin_same rfl (fun _ => rfl) rfl rfl
+    case h_2 d n a hpc =>
+      split at h
+      case isFalse => simp at h
+      split at h
+      · simp only [Option.some.injEq] at h; subst h
+        refine Or.inr (Or.inl ⟨d, (s.nodes n).data, ?_, rfl, rfl⟩)
+        simp only [contents, map_chainPush]
+      · simp only [Option.some.injEq] at h; subst h; exact lin_same rfl (fun _ => rfl) rfl rfl
+    case h_3 d a hpc =>
+      split at h
+      case isFalse => simp at h
+      rename_i hok
+      rw [hpc] at hl; simp only [Loc] at hl
+      split at h
+      · simp only [Option.some.injEq] at h; subst h
+        subst hok
+        simp only [decide_eq_true_eq] at *
+        rename_i hA; subst hA
+        obtain ⟨_, hC⟩ := hi.glob.pop_single d hl.1 hl.2
+        refine Or.inr (Or.inr ⟨d, (s.nodes (s.anchor.endp d)).data, ?_, rfl, rfl, t, s.anchor.endp d, by simp [upd]⟩)
+        simp only [contents]
+        rw [hC]
+        cases d <;> simp [chainPop]
+      · simp only [Option.some.injEq] at h; subst h; exact lin_same rfl (fun _ => rfl) rfl rfl
+    case h_4 d a prev hpc =>
+      split at h
+      case isFalse => simp at h
+      rename_i hok
+      rw [hpc] at hl; simp only [Loc] at hl
+      split at h
+      · simp only [Option.some.injEq] at h; subst h
+        subst hok
+        simp only [decide_eq_true_eq] at *
+        rename_i hA; subst hA
+        obtain ⟨_, _, hC⟩ := hi.glob.pop d hl.2.1 hl.1 (hl.2.2 rfl)
+        refine Or.inr (Or.inr ⟨d, (s.nodes (s.anchor.endp d)).data, ?_, rfl, rfl, t, s.anchor.endp d, by simp [upd]⟩)
+        simp only [contents]
+        conv => lhs; rw [hC]
+        cases d <;> simp
+      · simp only [Option.some.injEq] at h; subst h; exact lin_same rfl (fun _ => rfl) rfl rfl
+    case h_5 k d a hpc =>
+      split at h
+      case isFalse => simp at h
+      split at h
+      · simp only [Option.some.injEq] at h; subst h; exact lin_same rfl (fun _ => rfl) rfl rfl
+      · simp only [Option.some.injEq] at h; subst h; exact lin_same rfl (fun _ => rfl) rfl rfl
+
 /-- `stale` is sticky -/
 theorem stale_mono {s s' : St} {e : Ev} (h : step s e = some s') (hs : s'.stale = false) :
     s.stale = false := by
